@@ -102,6 +102,8 @@ def run_history(ctx: Ctx, ops_sym, tag: str, corpus: bool = False):
             _count_diff(ctx, op, status, out, exp_status, rf.diff_info)
         if getattr(rf, "or_fields_used", False):
             ctx.count("filter:on-<name>_self/_other-fields")
+        if getattr(rf, "shared_one_sided", False):
+            ctx.count("oracle-skip:one-array-under-two-names,-one-name-missing-in-the-other-dataset")
         if getattr(rf, "pad_refused", False):
             ctx.count("pad-of-gps-format-time-field-refused:" + ("raises-" + str(out) if status != "ok" else "NOT-REFUSED"))
         if exp_status == "ok":
